@@ -4,10 +4,10 @@ and (re)builds the detection matrix: for every seeded change, apply it to a scra
 its property (and related ones) against that worktree through VERIF_REPO, remove the worktree.  /repo itself is never touched."""
 import json, os, shutil, subprocess, sys
 
-SRCS = [("/tmp/seeded", 1), ("/tmp/seeded2", 2), ("/tmp/seeded3", 3), ("/tmp/seeded4", 4), ("/tmp/seeded5", 5), ("/tmp/seeded6", 6)]
+SRCS = [("/tmp/seeded", 1), ("/tmp/seeded2", 2), ("/tmp/seeded3", 3), ("/tmp/seeded4", 4), ("/tmp/seeded5", 5), ("/tmp/seeded6", 6), ("/tmp/seeded7", 7)]
 VERIF = os.path.dirname(os.path.dirname(os.path.abspath(__file__)))
 DST = os.path.join(VERIF, "seeded")
-RELATED = {"C02": ["C14"], "C03": ["C02", "C14"], "C14": ["C02"], "C10": ["C09"], "C18": [], "C08": [], "C07": ["C08"], "C09": ["C14"], "C11": ["C12"], "C12": ["C13"], "C13": ["C12"]}
+RELATED = {"C02": ["C14"], "C03": ["C02", "C14"], "C14": ["C02"], "C10": ["C09", "C04", "C14"], "C18": [], "C08": [], "C07": ["C08"], "C09": ["C14"], "C11": ["C12"], "C12": ["C13"], "C13": ["C12"]}
 STRENGTHENED = {
     "C03-dedup-swallows-ack": "missed at first; C03 gained forced message-ID collisions (stray ACK/RST and a peer request on the ID the CON is going to use)",
     "C03-timeout-fails-wrong-request": "missed by C03 at first (caught by C02 and C14); C03 gained a bystander request registered later",
@@ -126,6 +126,29 @@ STRENGTHENED = {
     "C19-spool-leak-on-valueerror": "missed at first; C19 gained the clause 'a request answered with an error leaves the served tree unchanged'",
     "C20-based-links-cache-stale-base": "missed at first; C20 gained the update that sets an explicit base (every lookup follows each step anyway)",
     "C20-linkformat-escape-order": "missed at first; C20 gained values that need quoting (double quote, trailing backslash) - which found C20-F4 on the unchanged tree; the seed was rebased onto the fix",
+    # round 7
+    "C02-preset-token-kept": "missed at first; C02 gained the application-level retry that re-sends the same Message object, and answers that name the message ID of the request datagram they answer",
+    "C02-timeout-escapes-wrapping": "missed at first; the ICMP / sendmsg error faults come with a second errno (ETIMEDOUT) that Python maps to a builtin exception class",
+    "C04-own-exchange-forgets-peer-mid": "missed in the quick tier (needs 5 events); C04 gained the prefix 'separate response sent and acknowledged' with the server's counter on the request's ID",
+    "C04-piggyback-mid-zero": "missed at first; C04 gained request message IDs 0/1/2 and the rule that every ACK names a request received from that endpoint",
+    "C05-block2-nonzero-first-block": "missed at first; C05 gained managed requests that carry the application's own Block2 option (NUM 0..n)",
+    "C07-reset-time-property-class-tuning": "missed at first; C07 gained observing requests whose tuning is handed over as a class",
+    "C09-last-event-ends-pipe-first": "missed at first; the outcome table gained messages that cannot be serialised - which showed defect C09-F2 on the unchanged tree (fixed by 5209cbb)",
+    "C10-endpoint-eq-drops-port": "missed at first; C10 gained exchanges with the peer's other port while a CON to its first port is open, C14's second endpoint became another port of the same host",
+    "C10-error-forgets-duplicates": "missed by C10 at first (caught by C04); the duplicate-in-window runs gained a transport error before the duplicate",
+    "C11-kid-context-lookup-default": "missed at first; C11 gained the server-side choice of the context from a credentials map (4 ID contexts in all orders)",
+    "C12-last-seqno-refused": "missed at first; the arrival alphabet gained the number 2^40-1",
+    "C12-odd-outer-code-inits-window": "missed at first; the arrival alphabet gained recorded requests whose outer code was rewritten (0.00, 7.01, 2.04)",
+    "C13-piv-strip-trailing-zero": "missed at first; C13 gained histories across the numbers where the Partial IV grows by a byte or ends in zero bytes",
+    "C14-response-timeout-forgets-backlog": "missed at first; C14 gained the server-role scenarios with the separate response on the wire first, one of them with a peer that never acknowledges it",
+    "C14-shared-backlog-list": "harness fault at first (state shared between contexts made executions of one process influence each other); the explorer now re-executes violations in a fork of a pristine interpreter and isolates executions when they disagree; C14 gained S-BL-cross",
+    "C15-csm-maxsize-lowers-own-limit": "missed at first; the frame alphabet gained a peer CSM with a small Max-Message-Size",
+    "C16-query-not-cleared-on-reparse": "missed at first; C16 gained the history-independence oracle (set again, copy(uri=)) - which showed defect C16-F4 on the unchanged tree (fixed by 06427ac)",
+    "C18-udp6-close-after-yield": "missed at first; C18 gained a datagram of the peer becoming readable during the shutdown",
+    "C19-delete-root-by-empty-segment": "missed at first; C19 gained every spelling of the root after a history that emptied the tree",
+    "C19-open-file-survives-replace": "missed at first; C19 gained a replacement through the server between a partial and a second fetch",
+    "C20-simple-reg-commit-before-fetch": "missed at first; C20 gained simple registration with every outcome of the link fetch",
+    "C20-param-merge-stops-at-unchanged": "missed at first; C20 gained updates with several parameters, one of them unchanged",
 }
 
 
@@ -159,7 +182,8 @@ def import_from(SRC, rnd):
                     continue
                 out = os.path.join(DST, "%s-%s" % (pid, name))
                 os.makedirs(out, exist_ok=True)
-                shutil.copy(os.path.join(sd, "patch.diff"), os.path.join(out, "patch.diff"))
+                if not os.path.exists(os.path.join(out, "patch.as-delivered.diff")):      # (rebased in place after a later fix: keep)
+                    shutil.copy(os.path.join(sd, "patch.diff"), os.path.join(out, "patch.diff"))
                 shutil.copy(os.path.join(sd, "demo.py"), os.path.join(out, "demo.py"))
                 for extra in os.listdir(sd):
                     if extra.startswith("patch.orig"):
